@@ -82,6 +82,12 @@ CMDS = [
     ("distance-gz", "compute distance -i gaps.fa -m k2p -o dist.txt.gz", False),
     ("reformat-phylip-xz", "reformat phylip -i in.fa -o out.phy.xz", False),
     ("shuffle-seqs-gz", "shuffle seqs -i in.fa -o out.fa.gz", True),
+    # a Phylip file holding 40 alignments: each is handled in turn while the reader goes on with the next
+    ("reformat-multi", "reformat phylip -p -i multi.phy", False),
+    ("reformat-multi-oneline", "reformat phylip -p -i multi.phy --one-line --no-block", False),
+    ("reformat-multi-fasta", "reformat fasta -p -i multi.phy", False),
+    ("consensus-multi", "consensus -p -i multi.phy", False),
+    ("revcomp-multi", "revcomp -p -i multi.phy", False),
 ]
 NAMES = [c[0] for c in CMDS]
 
@@ -115,6 +121,13 @@ def make_inputs(work, binary):
     gen("in.fa", ["random", "-n", "8", "-l", "60", "--seed", "11"])
     gen("gaps.fa", ["mutate", "gaps", "-i", "in.fa", "-n", "0.8", "-r", "0.15", "--seed", "3"])
     gen("aagaps.fa", ["translate", "-i", "gaps.fa", "--phase", "0"])
+    multi = b""
+    for k in range(40):
+        rc, out, err = run_cli(binary, ["random", "-n", str(3 + k % 4), "-l", str(30 + 7 * (k % 5)), "--seed", str(100 + k), "-p"], d)
+        if rc != 0:
+            raise vf.ToolingError("cannot create input multi.phy: %s" % err.decode()[-500:])
+        multi += out
+    open(os.path.join(d, "multi.phy"), "wb").write(multi)
     rng = random.Random(5)
     ties = ["ACGTACGTAAC", "ACGTACGTAAC", "CCGTTCGAAAC", "CCGTTCGAAAG", "AAGTACGTTTG", "AAGTACGTTTG"]
     open(os.path.join(d, "ties.fa"), "w").write("".join(">t%d\n%s\n" % (i, s) for i, s in enumerate(ties)))
@@ -260,6 +273,18 @@ def run_history(work, v, descriptors, tier):
                 curfmt = fmt
             shutil.rmtree(cwd, ignore_errors=True)
             emit("cycle/aa2", "ok" if ok else "failed", hashlib.sha1(cur).hexdigest()[:16], "aa2.fa ; reformat " + " -> ".join(ch))
+        # a file of 40 Phylip alignments written by goalign comes back byte for byte, also through the one-line layout
+        multi = open(os.path.join(ind, "multi.phy"), "rb").read()
+        emit("cycle/multi", "ok", hashlib.sha1(multi).hexdigest()[:16], "multi.phy (40 alignments written by goalign random -p)")
+        rc, back, _ = run_cli(binary, ["reformat", "phylip", "-p", "-i", "multi.phy"], ind)
+        emit("cycle/multi", "ok" if rc == 0 else "failed", hashlib.sha1(back).hexdigest()[:16], "reformat phylip -p -i multi.phy")
+        cwd = work.fresh("cyc", "")
+        os.makedirs(cwd)
+        rc1, one, _ = run_cli(binary, ["reformat", "phylip", "-p", "-i", os.path.join(ind, "multi.phy"), "--one-line", "--no-block"], cwd)
+        open(os.path.join(cwd, "one.phy"), "wb").write(one)
+        rc2, back2, _ = run_cli(binary, ["reformat", "phylip", "-p", "-i", "one.phy"], cwd)
+        shutil.rmtree(cwd, ignore_errors=True)
+        emit("cycle/multi", "ok" if rc1 == 0 and rc2 == 0 else "failed", hashlib.sha1(back2).hexdigest()[:16], "reformat phylip -p --one-line --no-block ; reformat phylip -p")
         for ch in chains:
             cur, curfmt, ok = canon, "fasta", True
             cwd = work.fresh("cyc", "")
